@@ -1,8 +1,13 @@
 (** Extraction of the executable models and checkers to OCaml.
     Only ExtrOcamlBasic and ExtrOcamlString are used; numbers stay Coq datatypes. *)
 From Coq Require Import Extraction ExtrOcamlBasic ExtrOcamlString.
-From Parol Require Import Runtime.Levenshtein Runtime.LevFaithful Runtime.DfaEval.
+From Parol Require Import Grammar.Cfg Grammar.Member Runtime.Levenshtein Runtime.LevFaithful Runtime.DfaEval Transform.LrAugment Analysis.WellFormed.
 Extraction Language OCaml.
 Set Extraction Optimize.
-Extraction "model.ml" Levenshtein.lev_check Levenshtein.dist LevFaithful.lev
-  DfaEval.eval_check DfaEval.sortedb DfaEval.wfd DfaEval.eval DfaEval.eval_old DfaEval.run.
+Separate Extraction Levenshtein.lev_check Levenshtein.dist LevFaithful.lev
+  DfaEval.eval_check DfaEval.sortedb DfaEval.wfd DfaEval.eval DfaEval.eval_old DfaEval.run
+  Member.member Member.member_from Member.member_fuel
+  LrAugment.augment_check LrAugment.isolatedb LrAugment.augment
+  WellFormed.nullable_check WellFormed.unproductive_check WellFormed.reachable_check WellFormed.unreachable_check
+  WellFormed.leftrec_check WellFormed.decision_check WellFormed.nullable_panics WellFormed.check_decision
+  WellFormed.nullable_nts WellFormed.unproductive_nts WellFormed.unreachable_nts WellFormed.left_recursive_nts.
